@@ -6,6 +6,10 @@ package main
 import (
 	"encoding/json"
 	"fmt"
+	"sort"
+	"strings"
+
+	"github.com/google/pprof/internal/graph"
 
 	"github.com/google/pprof/internal/zzverif/vdrv"
 	"github.com/google/pprof/internal/zzverif/vlib"
@@ -14,8 +18,20 @@ import (
 )
 
 type rcase struct {
+	Kind    string         `json:"kind"`
 	Samples []vlib.ASample `json:"samples"`
 	Cfg     vrep.Cfg       `json:"cfg"`
+	K       []vrep.Entry   `json:"K"`
+	Exp     struct {
+		Nodes []vrep.NodeRow `json:"nodes"`
+		Edges []struct {
+			Src       vrep.Entry `json:"src"`
+			Dst       vrep.Entry `json:"dst"`
+			W         int64      `json:"w"`
+			AllBypass bool       `json:"allbypass"`
+			NoBypass  bool       `json:"nobypass"`
+		} `json:"edges"`
+	} `json:"exp"`
 }
 
 type nameRow struct {
@@ -59,12 +75,16 @@ func main() {
 		stride = 1
 	}
 	run.EachCase(func(i int, raw json.RawMessage) {
-		if (i+int(run.Seed))%stride != 0 {
-			return
-		}
 		var c rcase
 		if err := json.Unmarshal(raw, &c); err != nil {
 			run.Infra("case decode: " + err.Error())
+			return
+		}
+		if c.Kind == "kept" {
+			keptCase(raw, &c)
+			return
+		}
+		if (i+int(run.Seed))%stride != 0 && !recursive(c.Samples) {
 			return
 		}
 		if c.Cfg.Mean || c.Cfg.Gran == "addresses" || c.Cfg.Gran == "files" {
@@ -74,6 +94,116 @@ func main() {
 	})
 	randomCases()
 	run.Finish("each evaluation is one real trimmed report (form x node cutoff x nodecount x edge cutoff x sort) of a TLC-enumerated or random profile, validated by TLC (TraceTrim.tla) against the untrimmed definition; non-trivial = report in which at least one entry or edge was removed or marked residual, counted distinct by (shown rows, edges, options)")
+}
+
+// recursive reports whether some sample visits a location twice with something else in between.
+func recursive(ss []vlib.ASample) bool {
+	for _, s := range ss {
+		for i := range s.Locs {
+			for j := i + 2; j < len(s.Locs); j++ {
+				if s.Locs[i].Rel == s.Locs[j].Rel {
+					return true
+				}
+			}
+		}
+	}
+	return false
+}
+
+// keptCase replays one (profile, kept set K) case of Trim.tla on the real graph
+// builder: graph.New with Options.KeptNodes = K on the aggregated profile
+// (Binding A for the rebuild mechanism newTrimmedGraph relies on).
+func keptCase(raw json.RawMessage, c *rcase) {
+	p := conc.Profile(vlib.AProf{ST: vrep.SampleTypes, Samples: c.Samples})
+	var err error
+	switch c.Cfg.Gran {
+	case "functions":
+		err = p.Aggregate(true, true, false, false, false, false)
+	case "lines":
+		err = p.Aggregate(true, true, true, true, false, false)
+	case "files":
+		err = p.Aggregate(true, false, true, false, false, false)
+	default:
+		run.Infra("kept case: granularity " + c.Cfg.Gran)
+		return
+	}
+	if err != nil {
+		run.Violate("kept", "kept:aggregate-error", err.Error(), raw, conc)
+		return
+	}
+	kept := graph.NodeSet{}
+	for _, e := range c.K {
+		kept[vrep.Info(e, conc)] = true
+	}
+	var g *graph.Graph
+	func() {
+		defer func() {
+			if r := recover(); r != nil {
+				run.Violate("kept", "kept:panic", fmt.Sprint(r), raw, conc)
+			}
+		}()
+		g = graph.New(p, &graph.Options{SampleValue: func(v []int64) int64 { return v[c.Cfg.SI-1] }, KeptNodes: kept})
+	}()
+	if g == nil {
+		return
+	}
+	key := ""
+	if len(c.K) > 0 {
+		b, _ := json.Marshal([]interface{}{c.K, c.Exp})
+		key = string(b)
+	}
+	run.Count(key)
+	var got, want []string
+	var gotE, wantE []string
+	inGraph := map[*graph.Node]bool{}
+	for _, n := range g.Nodes {
+		inGraph[n] = true
+	}
+	for _, n := range g.Nodes {
+		got = append(got, fmt.Sprintf("%s|flat=%d|cum=%d", n.Info.PrintableName(), n.Flat, n.Cum))
+		if !kept[n.Info] {
+			run.Violate("kept", "kept:removed-entry-shown", "node "+n.Info.PrintableName()+" is not in the kept set", raw, conc)
+		}
+		for dst, e := range n.Out {
+			if !inGraph[dst] {
+				run.Violate("kept", "kept:dangling-edge", "edge "+n.Info.PrintableName()+" -> "+dst.Info.PrintableName()+" leads to a node that is not in the graph", raw, conc)
+				continue
+			}
+			gotE = append(gotE, fmt.Sprintf("%s -> %s|w=%d", n.Info.PrintableName(), dst.Info.PrintableName(), e.Weight))
+			for _, x := range c.Exp.Edges {
+				if vrep.Name(x.Src, conc) == n.Info.PrintableName() && vrep.Name(x.Dst, conc) == dst.Info.PrintableName() {
+					if x.AllBypass && !e.Residual {
+						run.Violate("kept", "kept:residual-not-marked", "edge "+gotE[len(gotE)-1]+" only bypasses removed entries but is not residual", raw, conc)
+					}
+					if x.NoBypass && e.Residual {
+						run.Violate("kept", "kept:direct-marked-residual", "edge "+gotE[len(gotE)-1]+" is direct in every sample but marked residual", raw, conc)
+					}
+				}
+			}
+		}
+	}
+	for _, r := range c.Exp.Nodes {
+		want = append(want, fmt.Sprintf("%s|flat=%d|cum=%d", vrep.Name(r.E, conc), r.RawFlat, r.RawCum))
+	}
+	shownNames := map[string]bool{}
+	for _, r := range c.Exp.Nodes {
+		shownNames[vrep.Name(r.E, conc)] = true
+	}
+	for _, x := range c.Exp.Edges {
+		if shownNames[vrep.Name(x.Src, conc)] && shownNames[vrep.Name(x.Dst, conc)] {
+			wantE = append(wantE, fmt.Sprintf("%s -> %s|w=%d", vrep.Name(x.Src, conc), vrep.Name(x.Dst, conc), x.W))
+		}
+	}
+	sort.Strings(got)
+	sort.Strings(want)
+	sort.Strings(gotE)
+	sort.Strings(wantE)
+	if strings.Join(got, "\n") != strings.Join(want, "\n") {
+		run.Violate("kept", "kept:numbers-changed", fmt.Sprintf("rebuild with a kept set changed the numbers of what is shown, got:\n%s\nwant (untrimmed rows of the kept entries):\n%s", strings.Join(got, "\n"), strings.Join(want, "\n")), raw, conc)
+	}
+	if strings.Join(gotE, "\n") != strings.Join(wantE, "\n") {
+		run.Violate("kept", "kept:edges", fmt.Sprintf("got:\n%s\nwant:\n%s", strings.Join(gotE, "\n"), strings.Join(wantE, "\n")), raw, conc)
+	}
 }
 
 func absI(x int64) int64 {
